@@ -102,7 +102,20 @@ def insertByScoreDesc (e : Row α) : List (Row α) → List (Row α)
 /-- `sort.Sort(ByScore(entries))`: descending by score (any sorted permutation). -/
 def sortByScoreDesc (rs : List (Row α)) : List (Row α) := rs.foldr insertByScoreDesc []
 
-/-- calculate (51-220), as repaired (`preTrusted` sized by the dimension). `none` = error page, 400. -/
+/-- `iterationBound` (engine.go, as repaired): the loop `for x := 2.0; x > e && n < 1<<16; x *= 1-a { n++ }`
+    from `n = 2` — a count by which the exact iteration has converged to within `e`. -/
+def pgIterBoundAux (oneMinusA e : α) : Nat → α → Nat → Nat
+  | 0, _, n => n
+  | f + 1, x, n =>
+    if lt e x && decide (n < 65536) then pgIterBoundAux oneMinusA e f (mul x oneMinusA) (n + 1) else n
+
+def pgIterBound (a e : α) : Nat := pgIterBoundAux (sub one a) e 65536 (ofNat 2) 2
+
+/-- the options the playground passes to `Compute`: `WithMaxIterations(iterationBound(alpha, epsilon))`. -/
+def pgOpts (a e : α) : ComputeOpts α := { maxIterations := some ((pgIterBound a e : Nat) : Int) }
+
+/-- calculate (51-220), as repaired (`preTrusted` sized by the dimension; iterations bounded).
+    `none` = error page, 400. -/
 def calculate (fuel : Nat) (hundred eps : α) (u : Upload α) : Option (List (Row α)) :=
   match u.hunchPercent with
   | none => none
@@ -138,7 +151,8 @@ def calculate (fuel : Nat) (hundred eps : α) (u : Upload α) : Option (List (Ro
           | .ok (c, d) =>
             match canonicalizeLocalTrust c (some p), canonicalizeLocalTrust d none with
             | .ok c', .ok d' =>
-              match compute fuel c' p (div (ofNat hp.toNat) hundred) eps {} with
+              match compute fuel c' p (div (ofNat hp.toNat) hundred) eps
+                  (pgOpts (div (ofNat hp.toNat) hundred) eps) with
               | .error _ => none
               | .ok res =>
                 let t := discountTrustVector res.t d'
